@@ -18,6 +18,7 @@
      events: MLvl speed applied mode - one per completed _apply_speed/stop/coast; MSleep q - one
              per call of the package-level sleep;  sleeps / lvl_speeds / lvl_applied project them
      mtrace ops m          := all events of the history ops from m, in order
+     ev_ok inv e / ev_sound e := the statement's clauses read on one event (Proofs/DCMotorP.v)
      chain R l             := adjacent elements of l are related by R;  qge x y := y <= x
    Floats are exact rationals; == is equality of rationals. *)
 From Coq Require Import ZArith QArith List Bool.
@@ -229,6 +230,20 @@ Print Assumptions C19_motor_history_sleep.
 Theorem C19_motor_step_sleep : forall m op, qsum (sleeps (mevents (mstep m op))) == op_duration op.
 Proof. exact DCMotorP.step_sleep. Qed.
 Print Assumptions C19_motor_step_sleep.
+
+(* every level event of every call from an invariant state obeys the statement (|speed| <= 1,
+   applied = speed negated under the direction flag in force after the call, drive iff applied <> 0)
+   - in particular each of the 20 intermediate steps of a ramp - and no sleep is negative *)
+Theorem C19_motor_step_events : forall m op,
+  motor_inv m -> Forall (ev_ok (inverted (mstate (mstep m op)))) (mevents (mstep m op)).
+Proof. exact DCMotorP.step_ev. Qed.
+Print Assumptions C19_motor_step_events.
+
+(* ... hence everything any history emits after any history *)
+Theorem C19_motor_history_events : forall i1 i2 en m0 pre ops,
+  motor_ctor i1 i2 en = inl m0 -> Forall ev_sound (mtrace ops (mrun pre m0)).
+Proof. exact DCMotorP.trace_ev_reachable. Qed.
+Print Assumptions C19_motor_history_events.
 
 (* ====================================================================== *)
 (* IEEE specials (findings F-C19-motor-nan-speed, F-C19-motor-nonfinite-duration); *)
